@@ -206,18 +206,20 @@ func orderAgreementRule(P *Program, R *Report) {
 		R.decide(rule, kProofDCC+":slice-order", "and per index the proofs in slice order, each with the structure at the same position", inner != nil && cfp != nil && inner.Body[cfp.Block()] && okArgs, "", P.Pos(fn.Pos()))
 	}
 	// structures extracted in proof order
-	if rf := mustFunc(P, R, rule, kReconRP); rf != nil {
+	if cc := mustFunc(P, R, rule, kProofDCC); cc != nil {
 		ok := false
-		allInstrs(rf, func(i ssa.Instruction) {
-			c, isC := i.(*ssa.Call)
-			if !isC || !isCallTo(c, "builtin:append") {
-				return
-			}
-			if tail, okT := seqTail(c.Call.Args[1], 0, map[ssa.Value]bool{}); okT && len(tail) == 1 && strings.HasPrefix(tail[0].D, "call:"+kExtract+"("+pdRP+"[*][#j],") {
-				ok = true
-			}
+		deepVisit(P, cc, 2, func(rf *ssa.Function) {
+			allInstrs(rf, func(i ssa.Instruction) {
+				c, isC := i.(*ssa.Call)
+				if !isC || !isCallTo(c, "builtin:append") {
+					return
+				}
+				if tail, okT := seqTail(c.Call.Args[1], 0, map[ssa.Value]bool{}); okT && len(tail) == 1 && strings.HasPrefix(tail[0].D, "call:"+kExtract+"("+pdRP+"[*][#j],") {
+					ok = true
+				}
+			})
 		})
-		R.decide(rule, kReconRP+":structure-order", "the cached structures follow the order of the proofs they were extracted from", ok, "", P.Pos(rf.Pos()))
+		R.decide(rule, kProofDCC+":structure-order", "the cached structures follow the order of the proofs they were extracted from", ok, "", P.Pos(cc.Pos()))
 	}
 	// within a structure: same order on both sides (shared with C12.e)
 	for _, k := range []string{kRPCFP, kRPCFS} {
@@ -319,14 +321,17 @@ func statementFilingRule(P *Program, R *Report) {
 		return
 	}
 	tail, _ := seqTail(app.Call.Args[1], 0, map[ssa.Value]bool{})
-	ok := len(tail) == 1 && tail[0].D == "call:rangeproof.(*Statement).ProofStructure(arg#2[*][#j],"+key+")#0"
+	stmt := "arg#2[*][#j]"
+	ok := len(tail) == 1 && (tail[0].D == "call:rangeproof.(*Statement).ProofStructure("+stmt+","+key+")#0" ||
+		tail[0].D == "call:rangeproof.NewProofStructure("+key+","+stmt+".Sign,"+stmt+".Factor,"+stmt+".Bound,"+stmt+".Splitter)#0")
 	R.decide(rule, kCredBuilder+":filed", "every statement's structure is built for, and filed under, the index the caller gave it", ok, seqString(tail), P.Pos(app.Pos()))
 	r := (&MustPass{P: P, Match: func(a Atom) bool {
-		c, okc := callAtom(a, True, "gabi.isUndisclosedAttribute")
+		// the index is not contained in the disclosed list (tested here or in a helper such as isUndisclosedAttribute)
+		c, okc := callAtom(a, False, "slices.Contains")
 		return okc && desc(c.Call.Args[0]) == "arg#1" && desc(c.Call.Args[1]) == key
 	}}).MustReach(fn, app)
 	R.decide(rule, kCredBuilder+":hidden-only", "a range statement is accepted only for an attribute that is not disclosed", r.Holds, r.Path, P.Pos(app.Pos()))
-	if iu := mustFunc(P, R, rule, "gabi.isUndisclosedAttribute"); iu != nil {
+	if iu := P.Func("gabi.isUndisclosedAttribute"); iu != nil {
 		okc := false
 		for _, ret := range returnsOf(iu) {
 			okc = desc(ret.Results[0]) == "!call:slices.Contains(arg#0,arg#1)"
